@@ -402,6 +402,17 @@ def make_kw(desc):
     o = desc.get("opts", {})
     if o.get("fd"):
         kw["jac"] = None if o["fd"] == "None" else o["fd"]
+    if o.get("iprint") is not None:
+        # logging configuration: the model has no such input, so the run must not depend on it
+        import logging
+        lg = logging.getLogger("verif.sink")
+        if not lg.handlers:
+            lg.addHandler(logging.NullHandler())
+            lg.propagate = False
+        lg.setLevel(logging.DEBUG)
+        kw["iprint"] = int(o["iprint"])
+        if o.get("logger", True):
+            kw["logger"] = lg
     fs = float(P.f(np.clip(P.x0, P.lb, P.ub)))
     if o.get("ft") == "mid":
         kw["ftarget"] = fs - 0.3 * abs(fs) - 0.05
@@ -517,6 +528,9 @@ def gen_descs(tier, rng, focus=None):
             if focus == "fault":
                 opts["ft"] = str(rng.choice(["none", "none", "callable"]))
                 cfg.update(maxiter=int(rng.integers(3, 30)), maxfun=int(rng.integers(10, 80)))
+        if focus == "log" or rng.random() < 0.15:
+            opts["iprint"] = int(rng.choice([-1, 0, 1, 50, 99, 100, 101]))
+            opts["logger"] = bool(rng.random() < 0.8)
         if focus == "fd" or (focus is None and rng.random() < 0.12):
             opts["fd"] = str(rng.choice(["2-point", "3-point", "None"]))
             opts.pop("upd", None)
